@@ -32,7 +32,7 @@ CHECKS["C09"] = dict(
          "pickle._Unpickler.load_*: the pre-state is a hidden stack prefix of symbolic (unbounded) depth, a window of <=3 slots with "
          "solver-chosen mark flags and kinds, and a hidden memo of symbolic size with oracle membership; post: same window mark layout "
          "and same memo key writes. A Confirmed lemma for every opcode covers, by induction over the program, every prefix of every "
-         "program whose operand accesses stay inside the window. Tracing passivity is checked on a per-opcode program set.",
+         "program whose operand accesses stay inside the window. Tracing passivity is checked on a per-opcode program set. Memos with gaps and collisions (an explicit PUT-family write between MEMOIZEs, key 0..40) are cross-checked on whole programs in lockstep with the VM.",
     technique="CrossHair+z3 inductive step lemmas (hidden-prefix stack, oracle memo) vs pickle._Unpickler; program-level native replay",
     design="§1.3, §4 C09")
 
